@@ -461,6 +461,16 @@ def r5_value_checks_cover_every_dependent_parameter(ctx):
     r2(ctx)
 
 
+def _more(name):
+    def run(ctx):
+        from . import more
+
+        getattr(more, name)(ctx)
+
+    run.__name__ = name
+    return run
+
+
 RULES = [
     ("C01.R4", "P1", r4_key_and_argument_agree, "key and forwarded argument agree (entry point and rewritten call sites)"),
     ("C01.R5", "P1", r5_value_checks_cover_every_dependent_parameter, "value checks are installed for every dependent parameter"),
@@ -468,4 +478,5 @@ RULES = [
     ("C01.R2", "P1", r2_arity_keyword_filter, "arity / required-keyword filter"),
     ("C01.R3", "P1", r3_candidates_only_narrow, "candidates only narrow"),
     ("C01.R6", "P1", r6_bound_before_predicate, "bound before predicate"),
+    ("C01.R7", "P1", _more("hash_reads_what_eq_compares"), "equality of dependent types covers every constructor field; hash consults only what equality compares"),
 ]
